@@ -7,6 +7,7 @@ import (
 	"encoding/json"
 	"fmt"
 	"os"
+	"time"
 
 	"github.com/mutagen-io/mutagen/pkg/container/lru"
 
@@ -92,8 +93,15 @@ func main() {
 	w := hx.NewWriter(cfg, header, "lcase", "lru_failures", 500)
 	w.Rule = "a case = (capacity, operation sequence, implementation results incl. callback invocations per operation); distinct = distinct Coq terms; non-trivial = at least one callback invocation and at least one Get hit"
 	add := func(c Case, origin string) {
-		coq, nt, tags := runCase(c)
-		w.Add(hx.Case{Coq: coq, Replay: c, Nontrivial: nt, Tags: tags, Origin: origin})
+		if w.Aborted {
+			return
+		}
+		var coq string
+		var nt bool
+		var tags []string
+		if w.Guard(c, 5*time.Second, func() { coq, nt, tags = runCase(c) }) {
+			w.Add(hx.Case{Coq: coq, Replay: c, Nontrivial: nt, Tags: tags, Origin: origin})
+		}
 	}
 	if cfg.Replay != "" {
 		b, err := os.ReadFile(cfg.Replay)
